@@ -1,4 +1,105 @@
-import FiddleModel.Model.Graph
+/-
+C02 — one invocation per Buildable instance; built graph mirrors config graph.
+
+The model is `build` (`Model/Graph.lean`): `MemoizedTraversal.apply` specialised to
+`building.py::_build`, over heaps in which object identity is the heap index. `st.log` is the
+invocation log (ids of Buildables whose callable ran, in order), `st.memo` the traversal memo.
+All theorems are about every heap, every root and every failure set; the invariant behind them
+is `BuildSt.Inv` (`Lemmas/Build.lean`), proved by induction on the traversal.
+
+Carried by the correspondence check only: "separate fdl.build calls share no built objects"
+(the model allocates a fresh result heap per `build`, so the statement is definitional there)
+and the pinning of memo keys against `id` reuse (object identity is abstract in the model).
+-/
+import FiddleModel.Lemmas.Build
+import FiddleModel.Lemmas.Basic
+
 namespace Fiddle
-theorem C02_placeholder : True := trivial
+
+private theorem build_inv {h : Heap} {fails : List Nat} {root : GVal} {r : BVal} {st : BuildSt}
+    (hb : build h fails root = .ok (r, st)) : BuildSt.Step h {} st ∧ Memoized st root r :=
+  buildVal_step h fails _ root [] {} r st hb (BuildSt.inv_init h)
+
+/-- No Buildable instance is invoked twice. -/
+theorem C02_invoked_at_most_once (h : Heap) (fails : List Nat) (root : GVal) (r : BVal)
+    (st : BuildSt) (hb : build h fails root = .ok (r, st)) : st.log.Nodup :=
+  (build_inv hb).1.inv.nodup
+
+/-- Every Buildable instance reachable from the root is invoked. -/
+theorem C02_every_reachable_invoked (h : Heap) (fails : List Nat) (i : Nat) (r : BVal)
+    (st : BuildSt) (hb : build h fails (.ref i) = .ok (r, st))
+    (k : Nat) (ok : GObj) (hr : Reach h i k) (hk : h[k]? = some ok) (hc : ok.kind = .cfg) :
+    k ∈ st.log := by
+  obtain ⟨s, m⟩ := build_inv hb
+  have hm : (memoGet st.memo i).isSome := by rw [m i rfl]; rfl
+  exact s.inv.cfgLogged k ok hk hc (s.inv.reach_memoized hr hm)
+
+/-- ... exactly once: the log, as a list, contains every reachable Buildable once. -/
+theorem C02_exactly_once (h : Heap) (fails : List Nat) (i : Nat) (r : BVal)
+    (st : BuildSt) (hb : build h fails (.ref i) = .ok (r, st))
+    (k : Nat) (ok : GObj) (hr : Reach h i k) (hk : h[k]? = some ok) (hc : ok.kind = .cfg) :
+    st.log.count k = 1 := by
+  rw [(C02_invoked_at_most_once h fails _ r st hb).count]
+  simp [C02_every_reachable_invoked h fails i r st hb k ok hr hk hc]
+
+/-- An invocation happens after the invocation of every Buildable it depends on, directly or
+    through any nesting of containers and other Buildables. -/
+theorem C02_dependencies_first (h : Heap) (fails : List Nat) (root : GVal) (r : BVal)
+    (st : BuildSt) (hb : build h fails root = .ok (r, st))
+    (pre : List Nat) (i : Nat) (post : List Nat) (hl : st.log = pre ++ i :: post)
+    (o : GObj) (ho : h[i]? = some o) (pv : PElem × GVal) (hpv : pv ∈ o.children) (j : Nat)
+    (hj : pv.2 = .ref j) (k : Nat) (ok : GObj) (hr : Reach h j k) (hk : h[k]? = some ok)
+    (hc : ok.kind = .cfg) : k ∈ pre :=
+  (build_inv hb).1.inv.ordered pre i post hl o ho pv hpv j hj k ok hr hk hc
+
+/-- A second reference to an object that has been built receives the memoized result and
+    changes nothing: no invocation, no new result object. (All object kinds: Buildables, lists,
+    tuples, dicts.) -/
+theorem C02_same_reference_same_result (h : Heap) (fails : List Nat) (fuel : Nat) (i : Nat)
+    (path : Path) (st : BuildSt) (r : BVal) (hm : memoGet st.memo i = some r) :
+    buildVal h fails (fuel + 1) (.ref i) path st = .ok (r, st) := by
+  simp [buildVal, hm]
+
+/-- The result returned for an object is what the memo holds for it from then on. -/
+theorem C02_result_memoized (h : Heap) (fails : List Nat) (fuel : Nat) (i : Nat) (path : Path)
+    (st st' st'' : BuildSt) (r : BVal) (hi : st.Inv h)
+    (hb : buildVal h fails fuel (.ref i) path st = .ok (r, st'))
+    (later : BuildSt.Step h st' st'') : memoGet st''.memo i = some r :=
+  later.memoMono i r ((buildVal_step h fails fuel _ _ _ _ _ hb hi).2 i rfl)
+
+/-- Distinct instances give distinct built objects, whether or not they are equal. -/
+theorem C02_distinct_instances_distinct_results (h : Heap) (fails : List Nat) (root : GVal)
+    (r : BVal) (st : BuildSt) (hb : build h fails root = .ok (r, st))
+    (i j a : Nat) (hi : memoGet st.memo i = some (.built a))
+    (hj : memoGet st.memo j = some (.built a)) : i = j :=
+  (build_inv hb).1.inv.inj i j a hi hj
+
+/-- Built results are objects of this build's own result heap. -/
+theorem C02_results_in_own_heap (h : Heap) (fails : List Nat) (root : GVal)
+    (r : BVal) (st : BuildSt) (hb : build h fails root = .ok (r, st))
+    (i a : Nat) (hi : memoGet st.memo i = some (.built a)) : a < st.out.length :=
+  (build_inv hb).1.inv.fresh i a hi
+
+/-- The invocation log only grows during a traversal (what was invoked stays invoked). -/
+theorem C02_log_append_only (h : Heap) (fails : List Nat) (fuel : Nat) (v : GVal) (path : Path)
+    (st st' : BuildSt) (r : BVal) (hi : st.Inv h)
+    (hb : buildVal h fails fuel v path st = .ok (r, st')) : st.log <+: st'.log :=
+  (buildVal_step h fails fuel _ _ _ _ _ hb hi).1.logPrefix
+
+/-! ## Non-vacuity: a Buildable referenced twice through a list is invoked once and the list
+    holds the same built object twice. -/
+
+private def leaf : GObj := { kind := .cfg, ty := "leaf", sig := [] }
+private def shared2 : Heap :=
+  [ leaf, { kind := .list, children := [(.index 0, .ref 0), (.index 1, .ref 0)] } ]
+private theorem leaf_binds : bindBuilt leaf [] = .ok ([], [], []) := by decide
+@[simp] private theorem leaf_children : leaf.children = [] := rfl
+@[simp] private theorem leaf_kind : leaf.kind = .cfg := rfl
+@[simp] private theorem leaf_ty : leaf.ty = "leaf" := rfl
+
+example : ∃ st, build shared2 [] (.ref 1) = .ok (.built 1, st) ∧ st.log = [0] ∧
+    st.out.length = 2 ∧
+    st.out[1]? = some (.container .list "" [(.index 0, .built 0), (.index 1, .built 0)]) := by
+  simp [build, shared2, buildVal, buildChildren, memoGet, leaf_binds]
+
 end Fiddle
